@@ -991,3 +991,176 @@ def _new_partial(it, lv, ca, node):
 @spec("timedelta.total_seconds")
 def _total_seconds(it, lv, ca, node):
     return V.VFloat(td_seconds(V.addr(lv.bound)))
+
+
+# ------------------------------------------------------------------------------------------------
+# asyncio: event loop, Future state machine (T-FUT)
+#   $fstate: 0 pending, 1 result, 2 exception, 3 cancelled;  $fval: result or exception object
+# ------------------------------------------------------------------------------------------------
+F_PENDING, F_RESULT, F_EXC, F_CANCELLED = 0, 1, 2, 3
+
+
+def fstate(it, fut) -> z3.ExprRef:
+    return V.ival(it.st.get(fut, "$fstate"))
+
+
+def fval(it, fut) -> z3.ExprRef:
+    return it.st.get(fut, "$fval")
+
+
+def the_loop(it) -> z3.ExprRef:
+    g = it.st.ghost
+    if "$loop" not in g:
+        g["$loop"] = it.st.sym_ref("loop", "EventLoop")
+    return g["$loop"]
+
+
+@spec("asyncio.get_running_loop", "asyncio.get_event_loop")
+def _get_loop(it, lv, ca, node):
+    return the_loop(it)
+
+
+def new_future(it, cls: str = "Future") -> z3.ExprRef:
+    f = it.st.alloc(cls)
+    it.st.put(f, "$fstate", V.VInt(z3.IntVal(F_PENDING)))
+    it.st.put(f, "$fval", V.VNone)
+    return f
+
+
+@spec("EventLoop.create_future")
+def _create_future(it, lv, ca, node):
+    used("T-FUT")
+    return new_future(it)
+
+
+@spec("Future.done")
+def _fut_done(it, lv, ca, node):
+    return V.VBool(fstate(it, lv.bound) != F_PENDING)
+
+
+@spec("Future.cancelled")
+def _fut_cancelled(it, lv, ca, node):
+    return V.VBool(fstate(it, lv.bound) == F_CANCELLED)
+
+
+def _fut_set(it, fut, state: int, val, node):
+    st = it.st
+    if not st.decide(fstate(it, fut) == F_PENDING, f"future.set@{it.pos(node)}:pending"):
+        raise PyRaise(it.new_exc("InvalidStateError"), "future already done")
+    st.put(fut, "$fstate", V.VInt(z3.IntVal(state)))
+    st.put(fut, "$fval", val)
+    st.events.append(("future-done", fut, state, val))
+    c = st.contract
+    if c is not None and hasattr(c, "on_future_done"):
+        c.on_future_done(it, fut, state, val)
+
+
+@spec("Future.set_result")
+def _fut_set_result(it, lv, ca, node):
+    used("T-FUT")
+    _fut_set(it, lv.bound, F_RESULT, ca.pos[0], node)
+    return V.VNone
+
+
+@spec("Future.set_exception")
+def _fut_set_exception(it, lv, ca, node):
+    used("T-FUT")
+    e = ca.pos[0]
+    if it.kind(e) == "type":
+        from .interp import CallArgs
+        e = it.call(e, CallArgs(), node)
+    _fut_set(it, lv.bound, F_EXC, e, node)
+    return V.VNone
+
+
+@spec("Future.cancel")
+def _fut_cancel(it, lv, ca, node):
+    used("T-FUT")
+    st = it.st
+    fut = lv.bound
+    c = st.contract
+    if c is not None and hasattr(c, "on_cancel_call"):
+        r = c.on_cancel_call(it, fut, node)
+        if r is not None:
+            return r
+    if not st.decide(fstate(it, fut) == F_PENDING, f"future.cancel@{it.pos(node)}:pending"):
+        return it.mk_bool(False)
+    st.put(fut, "$fstate", V.VInt(z3.IntVal(F_CANCELLED)))
+    return it.mk_bool(True)
+
+
+@spec("Future.result")
+def _fut_result(it, lv, ca, node):
+    used("T-FUT")
+    st = it.st
+    fut = lv.bound
+    s = fstate(it, fut)
+    j = st.fork(f"future.result@{it.pos(node)}", [("value", s == F_RESULT), ("exception", s == F_EXC),
+                                                  ("cancelled", s == F_CANCELLED), ("pending", s == F_PENDING)])
+    if j == 0:
+        return fval(it, fut)
+    if j == 1:
+        raise PyRaise(fval(it, fut), "future.result(): stored exception")
+    if j == 2:
+        raise PyRaise(it.new_exc("CancelledError"), "future.result(): cancelled")
+    raise PyRaise(it.new_exc("InvalidStateError"), "future.result(): not done")
+
+
+@spec("Future.exception")
+def _fut_exception(it, lv, ca, node):
+    used("T-FUT")
+    st = it.st
+    fut = lv.bound
+    s = fstate(it, fut)
+    j = st.fork(f"future.exception@{it.pos(node)}", [("value", s == F_RESULT), ("exception", s == F_EXC),
+                                                     ("cancelled", s == F_CANCELLED), ("pending", s == F_PENDING)])
+    if j == 0:
+        return V.VNone
+    if j == 1:
+        return fval(it, fut)
+    if j == 2:
+        raise PyRaise(it.new_exc("CancelledError"), "future.exception(): cancelled")
+    raise PyRaise(it.new_exc("InvalidStateError"), "future.exception(): not done")
+
+
+def awaitable_of(it, v, node=None):
+    from .interp import AwaitableV
+    if it.kind(v) == "ref":
+        c = it.st.class_id_of(v)
+        if c is not None and it.ct.is_sub(c, it.ct.id("Future")):
+            return AwaitableV("future", {"fut": v})
+    cc = it.st.contract
+    if cc is not None and hasattr(cc, "awaitable_of"):
+        r = cc.awaitable_of(it, v, node)
+        if r is not None:
+            return r
+    raise Unsupported(f"await of a value that is not a known awaitable at line {getattr(node, 'lineno', '?')}")
+
+
+@spec("await:future")
+def _await_future(it, aw, idx, node):
+    """Resumption of `await fut` (T-FUT): value / stored exception / future cancelled, and - when
+    the contract allows a cancellation of the awaiting task - cancellation while the future is
+    pending (which cancels the future) or after it already holds a result (the value is lost to
+    the awaiter: CancelledError is thrown regardless)."""
+    st = it.st
+    fut = aw.data["fut"]
+    s = fstate(it, fut)
+    c = st.contract
+    allow_cancel = c is not None and c.cancel_awaiting_task(it, aw, idx)
+    alts = [("result", s == F_RESULT), ("exception", s == F_EXC), ("future-cancelled", s == F_CANCELLED)]
+    if allow_cancel:
+        alts += [("task-cancelled-while-pending", s == F_PENDING),
+                 ("task-cancelled-after-result", s == F_RESULT),
+                 ("task-cancelled-after-exception", s == F_EXC)]
+    j = st.fork(f"await#{idx}:future", alts)
+    if j == 0:
+        return fval(it, fut)
+    if j == 1:
+        raise PyRaise(fval(it, fut), "awaited future failed")
+    if j == 2:
+        raise PyRaise(it.new_exc("CancelledError"), "awaited future was cancelled")
+    if j == 3:
+        st.put(fut, "$fstate", V.VInt(z3.IntVal(F_CANCELLED)))
+        raise PyRaise(it.new_exc("CancelledError"), "task cancelled while waiting")
+    raise PyRaise(it.new_exc("CancelledError"), "task cancelled after the future was completed")
